@@ -837,7 +837,12 @@ pub fn run_encoder(ch: &mut Chooser, ctx: &mut Ctx) {
     let marathon = gen_marathon(ch, kind);
     let cfg = marathon.map_or_else(|| gen_config_for(ch, kind), |m| m.0);
     ctx.arm_poison(ch.seed64("poison.seed"), ch.weighted("poison.mode", &[1, 6, 2]) as u8);
-    ev!(ctx, "encoder history: {} cfg={cfg:?} poison_mode={}", kind.name(), ctx.poison_mode);
+    // F22: one history in six migrates (about every other guarded call runs on the companion OS thread); not the marathons (cost)
+    ctx.migrant = marathon.is_none() && ch.chance("migrant", 1, 6);
+    if ctx.migrant {
+        ctx.count("fault.F22_history_migrates_between_threads");
+    }
+    ev!(ctx, "encoder history: {} cfg={cfg:?} poison_mode={} migrant={}", kind.name(), ctx.poison_mode, ctx.migrant);
     ctx.hash.feed_u64(kind.layer as u64 * 16 + kind.engine as u64);
 
     let made = ctx.guarded(true, || enc_new(kind, cfg.0, cfg.1, cfg.2, None));
@@ -1617,7 +1622,12 @@ pub fn run_decoder(ch: &mut Chooser, ctx: &mut Ctx) {
     let marathon = gen_marathon(ch, kind);
     let cfg = marathon.map_or_else(|| gen_config_for(ch, kind), |m| m.0);
     ctx.arm_poison(ch.seed64("poison.seed"), ch.weighted("poison.mode", &[1, 6, 2]) as u8);
-    ev!(ctx, "decoder history: {} cfg={cfg:?} poison_mode={}", kind.name(), ctx.poison_mode);
+    // F22: one history in six migrates (about every other guarded call runs on the companion OS thread); not the marathons (cost)
+    ctx.migrant = marathon.is_none() && ch.chance("migrant", 1, 6);
+    if ctx.migrant {
+        ctx.count("fault.F22_history_migrates_between_threads");
+    }
+    ev!(ctx, "decoder history: {} cfg={cfg:?} poison_mode={} migrant={}", kind.name(), ctx.poison_mode, ctx.migrant);
     ctx.hash.feed_u64(0xD000 + kind.layer as u64 * 16 + kind.engine as u64);
 
     let made = ctx.guarded(true, || dec_new(kind, cfg.0, cfg.1, cfg.2, None));
